@@ -10,6 +10,21 @@ CLAIMED = {
              'trailing bytes and public-input count are checked on every success path. Necessary conditions, enumerated exhaustively over all call sites.',
         note=STATIC_NOTE,
         technique='static analysis: MIR must-call/dominance + call-graph who-may-call + HIR field coverage'),
+    'C15': dict(
+        text='Static rules over the batch-verification code: per-member must-call order (prepare → member summary → absorb into batching '
+             'transcript → assert_empty), batching challenge squeezed after all members, fold scales+adds every guard, final pairing check '
+             'on every non-empty success path, both MSM channels touched, accumulators hash all inputs, and a triaged panic inventory of '
+             'the batch APIs (empty / mismatched batches must yield a Result). Necessary conditions; the probabilistic iff is not decided.',
+        note=STATIC_NOTE,
+        technique='static analysis: MIR must-call/post-dominance + HIR dataflow + panic-site inventory'),
+    'C16': dict(
+        text='Static totality analysis of the decode/verify entry points: field- and parameter-sensitive untrusted-integer taint (HIR, global '
+             'fixpoint) from byte-decoded integers / decoded struct fields / integers read from proofs to panic and allocation sinks, '
+             'accepted only under a dominating escaping conditional; plus GUARD rules pinning the version / k / extended-k / architecture '
+             'checks and CHECKED rules for the per-format point decoders. Exhaustive over all functions reachable from the entry points; '
+             'decides absence of the enumerated sink classes, not termination time.',
+        note=STATIC_NOTE + ' Taint triage table: analysis/tables.py C16_TAINT_TRIAGE (one reason per accepted flow).',
+        technique='static analysis: inter-procedural taint (HIR) + dominance guards + checked-decoder call-graph rules'),
 }
 
 NOT_APPLICABLE = {
